@@ -225,7 +225,24 @@ func perturb(r *lib.Rand, s string) string {
 	if len(ts) == 0 {
 		return "return 1"
 	}
-	switch r.Intn(9) {
+	switch r.Intn(11) {
+	case 9, 10: // a non-ASCII look-alike in place of an ASCII character; also re-spell names with k, i, s
+		if r.Bool() {
+			for i := range ts {
+				if ts[i].kind == 'i' && ts[i].text != "return" && r.Chance(1, 2) {
+					old := ts[i].text
+					nw := []string{"k", "K", "i", "sk", "ki", "xk1", "Is"}[r.Intn(7)]
+					for j := range ts {
+						if ts[j].kind == 'i' && ts[j].text == old {
+							ts[j].text = nw
+						}
+					}
+					break
+				}
+			}
+			s = join(ts)
+		}
+		return unicodePerturb(r, s)
 	case 6, 7: // name resolution order: self-reference, swapped or duplicated definition lines
 		lines := strings.Split(s, "\n")
 		var defs []int
